@@ -116,5 +116,7 @@ ASSUME = ["every API call is one atomic step of the L1 model: concurrency betwee
           "flatbuffer payloads: the whole content is built inside the `loanf` call (a loan only grows while its chunk lies in the newest segment of its publisher: growing a loan of an "
           "OLDER segment hits the open C15 finding `DynamicMemory::grow` aliases a bucket of the current segment; port-level replay in DESIGN.md) and no table field carries its default value "
           "(the builder is handed non-zeroed memory: observation outside the 20 properties, DESIGN.md); publishers are not dropped (as in slice mode)",
-          "backpressure strategy DiscardData; the blocking strategies spin on the same try_send (retry loop not modelled)",
+          "backpressure strategy DiscardData; the blocking strategies spin on the same try_send (retry loop not modelled); mode backpressure-handler: every publisher carries a handler that "
+          "answers DiscardDataAndFail (asked when the buffer of a connected subscriber is full and safe overflow is off) — the state transition is the proved `send`, the result UnableToDeliver "
+          "is derived by the driver from the step's ghost log (not covered by a theorem); handlers answering Retry are not driven",
           "request-response uses the same Sender/Receiver machinery (port/details); it is exercised by the C11 check"]
